@@ -692,6 +692,15 @@ def gen_c02(tape, tier):
         opts['span_hosts'] = True
         opts['domains'] = ['test']
         opts['exclude_hostnames'] = ['third.test', 'other.test'][:tape.between(1, 2, 'opt.hosts.nex')]
+    if tape.chance(1, 4, 'opt.hosts.typed'):
+        # the way a user may type such lists: upper case, a trailing comma (an empty item)
+        for key in ('domains', 'exclude_domains', 'hostnames', 'exclude_hostnames'):
+            if opts.get(key):
+                how = tape.draw(3, 'opt.hosts.typed.' + key)
+                if how == 0:
+                    opts[key] = [x.upper() for x in opts[key]]
+                elif how == 1:
+                    opts[key] = [x.capitalize() for x in opts[key]] + ['']
     if opts.get('span_hosts'):
         opts.pop('span_hosts_allow', None)      # mutually exclusive on the command line
     k = tape.draw(8, 'opt.dirs')
